@@ -219,8 +219,30 @@ def part_a(ck, hist, tag, pack=None, model=True):
             vfs.apply_events(tmpi, [evs[k]], nbytes_last=nb)
             data = tmpi['Data.fs']
         targets.append(('cut%d.%s' % (k, nb), data, k, r, True, cc))
+    pack_variants = {}
     if rr.packed is not None:
         targets.append(('packed', rr.packed, len(rr.events), nret_total, False, None))
+        # crash states DURING the pack (C08's cuts): every fs-operation boundary (quick: around the
+        # operations on whole files), reopened as crashed and with the index of that moment
+        pimg = dict(rr.init)
+        vfs.apply_events(pimg, rr.events[:pre_events])
+        for k in range(pre_events, len(rr.events) + 1):
+            e = rr.events[k - 1] if k > pre_events else None
+            if e is not None:
+                vfs.apply_events(pimg, [e])
+            nxt = rr.events[k] if k < len(rr.events) else None
+            interesting = ck.thorough or any(x is not None and x[0] in ('create', 'rename', 'remove', 'link')
+                                             for x in (e, nxt))
+            if not interesting or pimg.get('Data.fs') is None:
+                continue
+            tname = 'packcut%d' % k
+            files = {n: b for n, b in pimg.items() if b is not None and not n.endswith('/')
+                     and n not in ('Data.fs', 'Data.fs.lock', 'Data.fs.tmp')}
+            vs = [('as-crashed', files)]
+            if pimg.get('Data.fs.index') is not None:
+                vs.append(('index-at-crash', {'Data.fs.index': pimg['Data.fs.index']}))
+            pack_variants[tname] = vs
+            targets.append((tname, pimg['Data.fs'], len(evs), nret_total, False, None))
     model_lines, model_checks = [], {}
     if model:
         try:
@@ -251,6 +273,24 @@ def part_a(ck, hist, tag, pack=None, model=True):
                 ck.mismatch('packed file not parseable by the oracle parser: %s' % e, dict(history=hist))
                 model = False
         variants = []
+        if name in pack_variants:
+            for vname, extra in pack_variants[name]:
+                files = {'Data.fs': data}
+                files.update(extra)
+                got = open_dump(wd, files, oids, tids)
+                ck.case([hid, name, vname, False], True, None)
+                ck.count('variant:pack-crash-' + vname)
+                if 'error' in got:
+                    viol.append(('C09:stale-index-after-pack-crash', 'crash image during pack (%s): open with the '
+                                 'side files of that moment (%s) raised %s, Data.fs alone opens' % (
+                                     name, vname, got['error']), dict(history=hist, pack=pack, target=name, variant=vname)))
+                else:
+                    diff = first_diff(got['dump'], base['dump'])
+                    if diff:
+                        viol.append(('C09:stale-index-after-pack-crash', 'crash image during pack (%s) reopened with '
+                                     'the side files of that moment (%s) differs from Data.fs alone: %s' % (
+                                         name, vname, diff), dict(history=hist, pack=pack, target=name, variant=vname)))
+            continue
         for si, (sidx, sbytes, sret) in enumerate(snaps):
             if sidx <= evidx:
                 variants.append(('index%d' % si, {'Data.fs.index': sbytes}, nret - sret, si))
@@ -290,6 +330,8 @@ def part_a(ck, hist, tag, pack=None, model=True):
                 continue
             if 'error' in got:
                 sig = STALE_SIG if stale else 'C09:open-with-side-files-raised'
+                if 'OSError' in got['error'] and 'Errno 22' in got['error']:
+                    sig = 'C09:sanity-walk-before-file-start'
                 what = 'open of %s with %s raised %s, without it the open succeeds' % (name, vname, got['error'])
             else:
                 diff = first_diff(got['dump'], want['dump'])
